@@ -394,6 +394,48 @@ type c08hField struct {
 	lo, hi          int
 	options         []string
 	fromString      bool
+	dotted          bool
+}
+
+// number of the section being generated (dotted key texts are per section)
+var c08hSec int
+
+// c08hNode collects the JSON bindings that dotted keys need below their first segments
+type c08hNode struct {
+	order []string
+	kids  map[string]*c08hNode
+	leaf  string
+}
+
+func (n *c08hNode) at(path []string) *c08hNode {
+	cur := n
+	for _, k := range path {
+		if cur.kids == nil {
+			cur.kids = map[string]*c08hNode{}
+		}
+		nx, ok := cur.kids[k]
+		if !ok {
+			nx = &c08hNode{}
+			cur.kids[k] = nx
+			cur.order = append(cur.order, k)
+		}
+		cur = nx
+	}
+	return cur
+}
+
+func (n *c08hNode) emit(sb *strings.Builder) {
+	for _, k := range n.order {
+		c := n.kids[k]
+		sb.WriteString(" " + k + " ")
+		if c.leaf != "" && len(c.order) == 0 {
+			sb.WriteString(c.leaf)
+			continue
+		}
+		sb.WriteString("{")
+		c.emit(sb)
+		sb.WriteString(" }")
+	}
 }
 
 var c08hPrimNames = []string{"bool", "int", "i8", "i32", "i64", "uint", "u8", "u16", "f32", "f64", "str", "str", "int"}
@@ -477,6 +519,17 @@ func c08hGenType(r *verifh.Rng) []*c08hField {
 	for i := 0; i < n; i++ {
 		f := &c08hField{name: fmt.Sprintf("F%d", i), key: keys[i], src: r.PickS("path", "form", "form", "header", "json", "json")}
 		f.prim = c08hPrimNames[r.Intn(len(c08hPrimNames))]
+		if r.Chance(1, 7) {
+			// a key with dots: path and form look it up literally (WithOpaqueKeys), header and json walk it segment by
+			// segment; the text carries the number of the section (the package-level key cache of core/mapping is then
+			// filled for it by this section alone) and is shared by the types of the section, so that the same text is
+			// seen under both kinds of unmarshaler, in both orders
+			f.key = fmt.Sprintf("%s%d.%s", r.PickS("p", "p", "q"), c08hSec, f.key)
+			if r.Chance(1, 6) {
+				f.key = fmt.Sprintf("p%d.q.%s", c08hSec, keys[i])
+			}
+			f.dotted = true
+		}
 		switch {
 		case f.src == "json" && r.Chance(1, 5):
 			f.prim = ""
@@ -639,6 +692,7 @@ func c08hGenOp(r *verifh.Rng, fs []*c08hField) string {
 		}
 	}
 	var pb, fb, hb, jb strings.Builder
+	jtree := &c08hNode{}
 	anyJSON := false
 	for _, f := range fs {
 		if !present[f.key] {
@@ -687,9 +741,31 @@ func c08hGenOp(r *verifh.Rng, fs []*c08hField) string {
 			b.WriteString(" ]")
 		default:
 			anyJSON = true
+			if f.dotted {
+				v := c08hJSONValue(r, f)
+				segs := strings.Split(key, ".")
+				switch mode := r.Intn(20); {
+				case mode < 11:
+					jtree.at(segs).leaf = v // where the chained lookup finds it
+				case mode < 13:
+					jb.WriteString(" " + key + " " + v) // the literal key: not what the json unmarshaler looks up
+				case mode < 15:
+					jtree.at(segs).leaf = v
+					jb.WriteString(" " + key + " " + c08hJSONValue(r, f))
+				case mode < 18:
+					jtree.at(segs[:len(segs)-1]) // only the enclosing object binds the last segment: the lookup falls back to it
+					jb.WriteString(" " + segs[len(segs)-1] + " " + v)
+				case mode < 19:
+					jtree.at(segs[:1]).leaf = "n:1"
+				default:
+					jtree.at(segs[:len(segs)-1])
+				}
+				continue
+			}
 			jb.WriteString(" " + key + " " + c08hJSONValue(r, f))
 		}
 	}
+	jtree.emit(&jb)
 	body := "none"
 	if anyJSON || r.Chance(1, 3) {
 		body = "{" + jb.String() + " }"
@@ -707,6 +783,7 @@ func c08hGen(r *verifh.Rng) []verifh.Section {
 	nsec := verifh.Scale(40, 200)
 	for i := 0; i < nsec; i++ {
 		var ops []string
+		c08hSec = i
 		if i == 0 {
 			ops = append(ops,
 				"p T { A int t:path|a,range=[1:5] B str t:form|b,options=foo|bar C [] int t:form|c,optional D str t:header|x-d,optional E int t:json|e,default=3 } P { a s:5 } F { b [ s:foo ] c[] [ s:1 s: s:2 ] } H { x-d [ s:v ] } B none",
